@@ -71,6 +71,13 @@ func (w *textWriter) WriteNull() error {
 
 // WriteNullType writes a typed null.
 func (w *textWriter) WriteNullType(t Type) error {
+	if w.err != nil {
+		return w.err
+	}
+	if int(t) >= len(textNulls) {
+		w.err = &UsageError{"Writer.WriteNullType", fmt.Sprintf("not an Ion type: %v", uint8(t))}
+		return w.err
+	}
 	return w.writeValue("Writer.WriteNullType", textNulls[t], writeRawString)
 }
 
